@@ -17,7 +17,8 @@ DW0[18:5] = bus interval counter (14 bits), DW0[31:19] = delta (13 bits).  Every
 one cycle of `update_received` a fixed number L of cycles later (L in 0..3, the same L for the whole case: the documented
 value is 1, a design with another output register is accepted) and in that cycle the two outputs must equal the full
 fields of that packet.  A strobe that belongs to no accepted ITP, a consumed header of another type and an ITP that is not
-taken within 8 cycles are violations with their own mechanism names.
+taken within 8 cycles are violations with their own mechanism names.  Classifier for the known defect: the mechanism
+`*_truncated_to_lsb` is used only if the output port is one bit wide and shows bit 0 of the field; everything else is `*_wrong`.
 
 Not judged: the outputs in cycles without `update_received` (the docstring of the block says it "keeps time", a correct
 implementation may advance the counter on its own between packets); `ready` while `valid` is low.
@@ -208,11 +209,11 @@ def run_case(rng, tier, res):
         res.event("counter_compared")
         res.event("delta_compared")
         if oc != c:
-            mech = "bus_interval_counter_truncated_to_lsb" if oc == (c & 1) else "bus_interval_counter_wrong"
+            mech = "bus_interval_counter_truncated_to_lsb" if (oc == (c & 1) and len(dut.bus_interval_counter) == 1) else "bus_interval_counter_wrong"
             report(mech, "ITP dw0=%08x (cycle %d): bus_interval_counter=%#x expected %#x (14 bits, DW0[18:5]); port width %d"
                    % (dw0, a, oc, c, len(dut.bus_interval_counter)))
         if od != d:
-            mech = "delta_truncated_to_lsb" if od == (d & 1) else "delta_wrong"
+            mech = "delta_truncated_to_lsb" if (od == (d & 1) and len(dut.delta) == 1) else "delta_wrong"
             report(mech, "ITP dw0=%08x (cycle %d): delta=%#x expected %#x (13 bits, DW0[31:19]); port width %d"
                    % (dw0, a, od, d, len(dut.delta)))
     res.nontrivial = res.bins.get("counter_upper_bits_set", 0) >= 20 and res.bins.get("delta_upper_bits_set", 0) >= 20 \
